@@ -279,7 +279,7 @@ func (t *c16tree) gen(dir string, depth int) {
 				t.add(rel, "sock", "")
 			}
 		case k < 98:
-			if depth == 0 {
+			if depth == 0 || t.rich && depth == 1 { // (walk mode: the named directory itself stays in this module)
 				continue
 			}
 			rel := c16join(dir, "go.mod")
@@ -290,7 +290,7 @@ func (t *c16tree) gen(dir string, depth int) {
 				t.add(rel, "gomod", "")
 			}
 		default:
-			if depth == 0 || depth+1 >= 4 {
+			if depth == 0 || depth+1 >= 4 || t.rich && depth == 1 {
 				continue
 			}
 			rel := c16join(dir, "go.mod")
@@ -649,9 +649,34 @@ func c16genPkg(r *rand.Rand, modDir string, idx int) *c16pkg {
 	p.dir = filepath.Join(modDir, p.name)
 	os.MkdirAll(p.dir, 0o755)
 	p.tree = &c16tree{rng: r, root: p.dir, have: map[string]bool{"m.go": true, "n.go": true}}
-	p.benign = r.Intn(100) < 55
-	p.tree.tame = p.benign && r.Intn(3) != 0
-	p.tree.gen("", 0)
+	mode := r.Intn(100)
+	p.walk = mode < 25
+	p.benign = mode < 65
+	p.tree.tame = p.benign && r.Intn(5) != 0
+	if p.walk {
+		// walk mode: 2-3 plain top-level directories with a visible file each and a rich subtree; patterns name those
+		// directories with and without all: - nearly always accepted, so the silent filters of the walk decide the file set
+		nd := 2 + r.Intn(2)
+		for len(p.walkDirs) < nd {
+			d := c16pick(r, c16commonDirs)
+			if p.tree.taken(d) || os.Mkdir(p.tree.abs(d), 0o755) != nil {
+				continue
+			}
+			p.tree.add(d, "dir", "")
+			p.walkDirs = append(p.walkDirs, d)
+			if os.WriteFile(p.tree.abs(d+"/keep.txt"), c16content(r), 0o644) == nil {
+				p.tree.add(d+"/keep.txt", "file", "")
+			}
+			p.tree.rich = true
+			p.tree.gen(d, 1)
+			p.tree.rich = false
+		}
+		if os.WriteFile(p.tree.abs("top.txt"), c16content(r), 0o644) == nil {
+			p.tree.add("top.txt", "file", "")
+		}
+	} else {
+		p.tree.gen("", 0)
+	}
 	for _, n := range p.tree.nodes {
 		p.features[n.kind] = true
 	}
